@@ -217,7 +217,9 @@ def check(rep, tier):
             for v in rep.violations[nv:]:
                 v["key"] = "rerun " + v["key"]; v["what"] = "after a second run() on the same object: " + v["what"]
         if r_all["nsteps"] * r_all["N"] <= 9000 and len(runs) < (14 if tier == "quick" else 80):
-            runs.append((cfg, fr.coq_run_case(r_all)))
+            import c06
+            if c06.hypotheses(cfg, r_all)["stability"] and np.abs(r_all["XS"]).max() < 1:      # whole-run replay only inside the stability range
+                runs.append((cfg, fr.coq_run_case(r_all)))
     rep.coverage["vials_inside_theorem_hypotheses"] = inside_tot
     rc, out = common.coq_eval("c12_0", HEAD % coq_list(c for _, c in runs), timeout=1500)
     blocks = common.eval_blocks(out)
